@@ -163,6 +163,66 @@ def stage_backrefs(ctx: Ctx):
                 break
 
 
+def stage_captures(ctx: Ctx):
+    """what a match REPORTS: captures made inside a quantifier (last repetition wins, as a regex group), captures behind it, static tags on the quantifier,
+    the per-repetition list of a tagged quantifier - after the greedy / lazy quantifier had to give back or take more; vs re groups"""
+    import fst
+    from fst.match import M, MTAG, MQ, MName, MList
+    rng = ctx.rng
+    targets = [''.join(t) for n in range(0, 6) for t in itertools.product('ab', repeat=n)]
+    trees = {t: fst.FST('[' + ', '.join(t) + ']', 'expr') for t in targets}
+    fams = []
+    for (mn, mx, q) in ((0, None, '*'), (1, None, '+'), (0, 1, '?'), (1, 2, '{1,2}'), (0, 2, '{0,2}')):
+        for greedy in (True, False):
+            for static in (False, True):
+                for reptag in (False, True):
+                    for suf, sufrx, ngroups in (('y', '(.)', 1), ('b', 'b', 0), ('yz', '(.)(.)', 2), ('x', '\\1', 0), ('', '', 0)):
+                        if suf == 'x' and reptag:
+                            continue        # captures of a tagged quantifier live in its list, not at top level
+                        def mk(mn=mn, mx=mx, greedy=greedy, static=static, reptag=reptag, suf=suf):
+                            cls = MQ if greedy else MQ.NG
+                            kw = {'st': True} if static else {}
+                            qq = cls(min=mn, max=mx, r=M(x=...), **kw) if reptag else cls(M(x=...), min=mn, max=mx, **kw)
+                            tail = {'y': [M(y=...)], 'b': [MName('b')], 'yz': [M(y=...), M(z=...)], 'x': [MTAG('x')], '': []}[suf]
+                            return MList(elts=[qq] + tail)
+                        fams.append((f'(?:(.)){q}{"" if greedy else "?"}{sufrx}', mk, static, reptag, suf, ngroups))
+    if not ctx.thorough:
+        fams = rng.sample(fams, 60)
+    for rxs, mk, static, reptag, suf, ngroups in fams:
+        rx = re.compile(rxs)
+        for t in (targets if ctx.thorough else rng.sample(targets, 40)):
+            try:
+                m = mk().match(trees[t])
+            except Exception as e:
+                ctx.violation(f'capture-raise|{rxs}', 'matching raised', {'regex': rxs, 'target': t, 'error': repr(e)})
+                break
+            rm = rx.fullmatch(t)
+            ctx.tick(('capture', rxs, static, reptag, t), 'capture:' + ('accept' if rm else 'reject'))
+            if (m is None) != (rm is None):
+                ctx.violation(f'capture-accept|{rxs}', 'accepts/rejects differently from the corresponding regular expression', {'regex': rxs, 'target': t, 'fst_matches': m is not None})
+                break
+            if m is None:
+                continue
+            nrep = len(t) - {'y': 1, 'b': 1, 'yz': 2, 'x': 1, '': 0}[suf]
+            want = {}
+            if reptag:
+                want['r'] = list(t[:nrep])
+            elif rm.group(1) is not None:
+                want['x'] = rm.group(1)
+            if static:
+                want['st'] = True
+            for k, g in zip('yz', range(2, 2 + ngroups)):
+                want[k] = rm.group(g)
+            got = {}
+            for k, v in m.tags.items():
+                got[k] = [getattr(d.get('x'), 'src', None) if hasattr(d, 'get') else repr(d) for d in v] if isinstance(v, list) else v.src if hasattr(v, 'src') else v
+            if got != want:
+                ctx.violation(f'capture-tags|{"static" if static else "plain"}|{"reptag" if reptag else "notag"}|{"greedy" if "?" != rxs[len("(?:(.))") + len(rxs[7:8]):][:1] else "lazy"}',
+                              'the tags reported by a match differ from the groups of the corresponding regular expression (captures of the last repetition, captures behind the quantifier, static tags)',
+                              {'regex': rxs, 'target': t, 'static_tags_on_quantifier': static, 'repetition_tag': reptag, 'tags': {k: repr(v) for k, v in got.items()}, 'expected': {k: repr(v) for k, v in want.items()}})
+                break
+
+
 # ---- nested quantifiers (atomic repetitions) ---------------------------------------------------------------------------
 
 NHDR = ('From Coq Require Import List Bool Arith.\nFrom PF Require Import models.Match models.MatchNested.\nImport ListNotations.\n'
@@ -326,6 +386,33 @@ def stage_search(ctx: Ctx, progs):
                 ctx.violation(f'search-filter|{name}', 'search(pattern) does not yield exactly the nodes, in walk order, that match(pattern) accepts',
                               {'src': src, 'pattern': name, 'missed': [(type(x.a).__name__, x.src[:30]) for x in missed[:4]],
                                'extra': [(type(x.a).__name__, x.src[:30]) for x in extra[:4]], 'n_search': len(got), 'n_filter': len(want)})
+
+
+def stage_search_ctx(ctx: Ctx, progs):
+    """search(pattern, ctx=True) == the walk filtered by match(pattern, ctx=True): AST patterns that carry a concrete expression context, built from the names of the program"""
+    import fst
+    rng = ctx.rng
+    extra = ['i = 0\nfor i in i: del i\nprint(i)\n', 'a.b = a.b\ndel a.b\nx[k] = x[k]\ndel x[k]\n', '(p, q) = [p, q] = p, q\n']
+    for pi, src in enumerate(extra + list(progs)):
+        root = fst.FST(src, 'exec')
+        names = sorted({f.a.id for f in root.walk(ast.Name)})
+        for nm in (names if pi < len(extra) else rng.sample(names, min(len(names), 3))):
+            for cx in (ast.Load, ast.Store, ast.Del):
+                for use_ctx in (True, False):
+                    pats = [('Name', lambda: ast.Name(id=nm, ctx=cx())), ('Attribute', lambda: ast.Attribute(value=ast.Name(id=nm, ctx=ast.Load()), attr='b', ctx=cx())),
+                            ('Tuple', lambda: ast.Tuple(elts=[ast.Name(id=nm, ctx=cx()), ast.Name(id='q', ctx=cx())], ctx=cx()))]
+                    for pname, mk in (pats if pi < len(extra) else pats[:1]):
+                        try:
+                            got = [m.matched for m in root.search(mk(), nested=True, ctx=use_ctx)]
+                            want = [f for f in root.walk(True) if f.match(mk(), ctx=use_ctx) is not None]
+                        except Exception as e:
+                            ctx.violation(f'search-ctx-raise|{type(e).__name__}', 'search() / match() with ctx raised', {'src': src, 'pattern': f'{pname}({nm!r}, {cx.__name__}())', 'ctx': use_ctx, 'error': repr(e)[:200]})
+                            continue
+                        ctx.tick(('search-ctx', src, nm, cx.__name__, use_ctx, pname), 'search:ctx=' + str(use_ctx))
+                        if [id(x) for x in got] != [id(x) for x in want]:
+                            ctx.violation(f'search-filter|ctx={use_ctx}|{pname}', 'search(pattern, ctx=) does not yield exactly the nodes, in walk order, that match(pattern, ctx=) accepts',
+                                          {'src': src, 'pattern': f'{pname}({nm!r}, {cx.__name__}())', 'ctx': use_ctx, 'search': [(x.src, type(x.a.ctx).__name__) for x in got][:8],
+                                           'match_filter': [(x.src, type(x.a.ctx).__name__) for x in want][:8]})
 
 
 def stage_structure(ctx: Ctx, progs):
@@ -571,11 +658,13 @@ def run(ctx: Ctx):
         ctx.build_props()
     run_guarded(ctx, stage_quantifiers)
     run_guarded(ctx, stage_backrefs)
+    run_guarded(ctx, stage_captures)
     run_guarded(ctx, stage_nested)
     run_guarded(ctx, stage_history)
     run_guarded(ctx, stage_field_sweep)
     progs = corpus(ctx.rng, gen=ctx.scale(6, 60))
     run_guarded(ctx, stage_search, progs)
+    run_guarded(ctx, stage_search_ctx, progs)
     run_guarded(ctx, stage_structure, [p for p in progs if len(p) < 1200])
 
 
